@@ -119,9 +119,9 @@ C["C30"] = {
 C["C01"] = {
  "pkgs": ["."],
  "technique": "differential symbolic execution of the real topic trie (Subscribe/InlineSubscribe/Subscribers) against a level-wise reference matcher; filter and topic bytes symbolic",
- "quick": {"harnesses": [H("VerifC01Client", F=4, T=3), H("VerifC01Shared", F=3, T=3), H("VerifC01Inline", F=3, T=3), H("VerifC01Client", F=3, T=3, EXTRA=1), H("VerifC01Two", F=2, T=3)], "budget_s": 300, "witnesses": 8,
+ "quick": {"harnesses": [H("VerifC01Client", F=4, T=3), H("VerifC01Shared", F=3, T=3), H("VerifC01Inline", F=3, T=3), H("VerifC01Client", F=3, T=3, EXTRA=1), H("VerifC01Two", F=2, T=3), H("VerifC01History", STEPS=3)], "budget_s": 300, "witnesses": 8,
    "bounds": "one subscription (client / $share/g/ / inline) with every valid filter of 1..4 (client) or 1..3 bytes over {/ + # $ a b} against every topic of 1..3 bytes over {/ $ a b}; two overlapping subscriptions of one client with filters of 1..2 bytes"},
- "thorough": {"harnesses": [H("VerifC01Client", F=6, T=5), H("VerifC01Shared", F=5, T=4), H("VerifC01Inline", F=5, T=4), H("VerifC01Two", F=3, T=3)], "budget_s": 3000, "witnesses": 24,
+ "thorough": {"harnesses": [H("VerifC01Client", F=6, T=5), H("VerifC01Shared", F=5, T=4), H("VerifC01Inline", F=5, T=4), H("VerifC01Two", F=3, T=3), H("VerifC01History", STEPS=3)], "budget_s": 3000, "witnesses": 24,
    "bounds": "filters up to 6 bytes, topics up to 5 bytes (3 levels incl. empty levels); two subscriptions with filters up to 3 bytes"},
  "outside_bounds": ["more than two subscriptions, deeper tries", "filters are assumed valid by the reference predicate (invalid filters are C30's)"],
  "stubs": ["sync.RWMutex: lock tracker (never blocks in a single goroutine)"],
@@ -168,9 +168,9 @@ C["C37"] = {
 C["C10"] = {
  "pkgs": ["."],
  "technique": "one-step inductive symbolic execution: NextPacketID from an arbitrary in-flight state; handlers with a symbolic client packet id against a broker-created outbound record",
- "quick": {"harnesses": [H("VerifC10Alloc", M=3), H("VerifC10AllocVsInbound", M=3), H("VerifC10Cross", VER=5), H("VerifC10Cross", VER=4), H("VerifC10Reverse")], "budget_s": 200, "witnesses": 8,
-   "bounds": "allocation: maximumPacketID = 3, every subset of ids in use, every cursor; cross: one outbound QoS 1/2 record, client PUBLISH/PUBREL/SUBSCRIBE/UNSUBSCRIBE with any 16-bit id; reverse: PUBACK/PUBREC/PUBCOMP against an open inbound QoS 2 exchange"},
- "thorough": {"harnesses": [H("VerifC10Alloc", M=7), H("VerifC10AllocVsInbound", M=5), H("VerifC10Cross", VER=5), H("VerifC10Cross", VER=4), H("VerifC10Reverse")], "budget_s": 600, "witnesses": 16, "bounds": "as quick with maximumPacketID = 7"},
+ "quick": {"harnesses": [H("VerifC10Alloc", M=3), H("VerifC10AllocVsInbound", M=3), H("VerifC10Cross", VER=5), H("VerifC10Cross", VER=4), H("VerifC10Reverse"), H("VerifC10Drop")], "budget_s": 200, "witnesses": 8,
+   "bounds": "allocation: maximumPacketID = 3, every subset of ids in use, every cursor; cross: one outbound QoS 1/2 record, client PUBLISH/PUBREL/SUBSCRIBE/UNSUBSCRIBE with any 16-bit id; reverse: PUBACK/PUBREC/PUBCOMP against an open inbound QoS 2 exchange; drop: a message dropped for a full outbound queue, the publisher's own packet id any 16-bit value, two other messages unacknowledged"},
+ "thorough": {"harnesses": [H("VerifC10Alloc", M=7), H("VerifC10AllocVsInbound", M=5), H("VerifC10Cross", VER=5), H("VerifC10Cross", VER=4), H("VerifC10Reverse"), H("VerifC10Drop")], "budget_s": 600, "witnesses": 16, "bounds": "as quick with maximumPacketID = 7"},
  "outside_bounds": ["the real identifier limit 65535 (differs from M only in the constant)", "more than one outbound record in the cross-contamination step"],
  "stubs": SRV_STUBS, "trusted_base": SRV_TB,
 }
@@ -178,9 +178,9 @@ C["C10"] = {
 C["C11"] = {
  "pkgs": ["."],
  "technique": "bounded symbolic execution of solver-chosen histories through the real handlers; the oracle counts unacknowledged messages on the wire (reference decoder), independent of the broker's quota counters",
- "quick": {"harnesses": [H("VerifC11Flow", STEPS=3)], "budget_s": 300, "witnesses": 8, "perm_limit": 1,
-   "bounds": "client Receive Maximum 1..2, server Receive Maximum 1..2, every history of 3 steps among {broker delivers q1/q2, client acknowledges, client publishes q0/q1/q2 within the limit, client PUBREL, spurious PUBCOMP}"},
- "thorough": {"harnesses": [H("VerifC11Flow", STEPS=5)], "budget_s": 3000, "witnesses": 16, "perm_limit": 1, "bounds": "as quick with histories of 5 steps"},
+ "quick": {"harnesses": [H("VerifC11Flow", STEPS=3), H("VerifC11Flow", STEPS=3, SUBQOS0=1)], "budget_s": 300, "witnesses": 8, "perm_limit": 1,
+   "bounds": "client Receive Maximum 1..2, server Receive Maximum 1..2, every history of 3 steps among {broker delivers q1/q2, client acknowledges, client publishes q0/q1/q2 within the limit, client PUBREL, spurious PUBCOMP}; the same with a QoS 0 subscription (deliveries downgraded to QoS 0 must use no quota)"},
+ "thorough": {"harnesses": [H("VerifC11Flow", STEPS=5), H("VerifC11Flow", STEPS=4, SUBQOS0=1)], "budget_s": 3000, "witnesses": 16, "perm_limit": 1, "bounds": "as quick with histories of 5 steps"},
  "outside_bounds": ["longer histories, Receive Maximum > 2", "map iteration order (perm_limit 1: the harness's own model maps are iterated in insertion order)"],
  "stubs": SRV_STUBS, "trusted_base": SRV_TB,
 }
@@ -199,9 +199,9 @@ C["C08"] = {
 C["C04"] = {
  "pkgs": ["."],
  "technique": "bounded symbolic execution of the real SUBSCRIBE handler, trie merge and publishToClient with symbolic QoS x3, identifiers, RAP and retain; wire output parsed by the reference decoder",
- "quick": {"harnesses": [H("VerifC04Deliver", VER=5), H("VerifC04Deliver", VER=4)], "budget_s": 300, "witnesses": 8, "perm_limit": 2,
+ "quick": {"harnesses": [H("VerifC04Deliver", VER=5), H("VerifC04Deliver", VER=4), H("VerifC04Resubscribe", PERM=1)], "budget_s": 300, "witnesses": 8, "perm_limit": 2,
    "bounds": "server maximum QoS 0..2, publish QoS 0..2, two overlapping subscriptions (a/b, a/+) each present or not with QoS 0..2, identifier in {none,1,2}, Retain As Published, retain flag; all iteration orders of maps with <= 2 entries"},
- "thorough": {"harnesses": [H("VerifC04Deliver", VER=5), H("VerifC04Deliver", VER=4), H("VerifC04Deliver", VER=3)], "budget_s": 900, "witnesses": 16, "perm_limit": 3, "bounds": "as quick; map orders up to 3 entries"},
+ "thorough": {"harnesses": [H("VerifC04Deliver", VER=5), H("VerifC04Deliver", VER=4), H("VerifC04Deliver", VER=3), H("VerifC04Resubscribe", PERM=1)], "budget_s": 900, "witnesses": 16, "perm_limit": 3, "bounds": "as quick; map orders up to 3 entries"},
  "outside_bounds": ["more than two overlapping subscriptions", "RAP disagreement between matching subscriptions (the statement speaks of 'the matching subscription'; asserted only when they agree)", "retained-delivery identifiers are asserted in C05's harness"],
  "stubs": SRV_STUBS, "trusted_base": SRV_TB,
 }
@@ -260,9 +260,9 @@ C["C24"] = {
 C["C25"] = {
  "pkgs": ["."],
  "technique": "symbolic execution of minimum, processPublish expiry computation, clearExpiredRetainedMessages, clearExpiredInflights and WritePacket's interval rewrite with intervals, server maximum and clock readings as solver variables (64-bit bit-vector arithmetic)",
- "quick": {"harnesses": [H("VerifC25Minimum"), H("VerifC25Retained", VER=5), H("VerifC25Retained", VER=4), H("VerifC25Delivered"), H("VerifC25Deferred")], "budget_s": 300, "witnesses": 8, "perm_limit": 1,
+ "quick": {"harnesses": [H("VerifC25Minimum"), H("VerifC25Retained", VER=5), H("VerifC25Retained", VER=4), H("VerifC25Delivered"), H("VerifC25Deferred"), H("VerifC25Offline")], "budget_s": 300, "witnesses": 8, "perm_limit": 1,
    "bounds": "publisher interval and server maximum symbolic in [0, 2^20), housekeeping time symbolic up to 2^21 s after publish, one retained / one delivered / one deferred message"},
- "thorough": {"harnesses": [H("VerifC25Minimum"), H("VerifC25Retained", VER=5), H("VerifC25Retained", VER=4), H("VerifC25Retained", VER=3), H("VerifC25Delivered"), H("VerifC25Deferred")], "budget_s": 600, "witnesses": 16, "perm_limit": 1, "bounds": "as quick"},
+ "thorough": {"harnesses": [H("VerifC25Minimum"), H("VerifC25Retained", VER=5), H("VerifC25Retained", VER=4), H("VerifC25Retained", VER=3), H("VerifC25Delivered"), H("VerifC25Deferred"), H("VerifC25Offline")], "budget_s": 600, "witnesses": 16, "perm_limit": 1, "bounds": "as quick"},
  "outside_bounds": ["intervals >= 2^20 s (same arithmetic, 64-bit, no overflow below 2^40)", "'after a restart' is decided with the storage boundary in C20", "the clock does not advance inside WritePacket (one symbolic second per path)"],
  "stubs": SRV_STUBS, "trusted_base": SRV_TB,
 }
@@ -302,9 +302,9 @@ C["C15"] = {
 C["C16"] = {
  "pkgs": ["."],
  "technique": "bounded symbolic execution of the real connection handlers, sendLWT, sendDelayedLWT and processDisconnect over solver-chosen ways of ending the connection, will delay and housekeeping times symbolic; goroutine choices (old connection's teardown vs the new connection) explored",
- "quick": {"harnesses": [H("VerifC16Will"), H("VerifC16TakeoverRace", PREEMPT=1)], "budget_s": 400, "witnesses": 8, "perm_limit": 1,
+ "quick": {"harnesses": [H("VerifC16Will"), H("VerifC16Will", NOSEI=1), H("VerifC16TakeoverRace", PREEMPT=1)], "budget_s": 400, "witnesses": 8, "perm_limit": 1,
    "bounds": "will QoS 0/1, retain, delay 0 or symbolic 1..1000 s, protocol 4/5; end of connection in {DISCONNECT, DISCONNECT 0x04, connection lost, second CONNECT, takeover with Clean Start 0, takeover with Clean Start 1}; two housekeeping ticks at symbolic times with an optional resuming connection between them"},
- "thorough": {"harnesses": [H("VerifC16Will", PREEMPT=1), H("VerifC16TakeoverRace", PREEMPT=2)], "budget_s": 3000, "witnesses": 24, "perm_limit": 1, "bounds": "as quick plus one pre-emption at a synchronisation operation"},
+ "thorough": {"harnesses": [H("VerifC16Will", PREEMPT=1), H("VerifC16Will", NOSEI=1), H("VerifC16TakeoverRace", PREEMPT=2)], "budget_s": 3000, "witnesses": 24, "perm_limit": 1, "bounds": "as quick plus one pre-emption at a synchronisation operation"},
  "outside_bounds": ["session expiry ending the session before the delay (the delay is capped to the session expiry by ParseConnect; decided arithmetically there)", "interleavings beyond cooperative scheduling + the stated pre-emption bound"],
  "stubs": SRV_STUBS + LIVE, "trusted_base": SRV_TB,
 }
@@ -343,9 +343,9 @@ C["C19"] = {
 C["C23"] = {
  "pkgs": ["."],
  "technique": "every transcript produced by the symbolically executed connection handler and request handlers is parsed by a strict reference decoder written from the MQTT 3.1.1/5.0 specifications; well-formedness, version and size obligations are SMT queries over the symbolic bytes",
- "quick": {"harnesses": [H("VerifC13Attach", WF=1), H("VerifC14Takeover", WF=1), H("VerifC07Request", WF=1, VER=5), H("VerifC07Request", WF=1, VER=4), H("VerifC23MaxSize", PAYLOAD=24), H("VerifC23SubackV3"), H("VerifC23DisconnectV3")], "budget_s": 600, "witnesses": 4, "perm_limit": 1,
+ "quick": {"harnesses": [H("VerifC13Attach", WF=1), H("VerifC14Takeover", WF=1), H("VerifC07Request", WF=1, VER=5), H("VerifC07Request", WF=1, VER=4), H("VerifC23MaxSize", PAYLOAD=24), H("VerifC23SubackV3"), H("VerifC23DisconnectV3"), H("VerifC09Redeliver", WF=1, MSGS=2, ACKS=2, RECON=1)], "budget_s": 600, "witnesses": 4, "perm_limit": 1,
    "bounds": "all CONNECT variants of C13, the takeover scenarios of C14, the requests of C07; client Maximum Packet Size symbolic 1..40 with payload 0..24 bytes and optional user property; SUBSCRIBE/UNSUBSCRIBE failure paths for protocol 3/4/5; broker-initiated disconnects"},
- "thorough": {"harnesses": [H("VerifC13Attach", WF=1), H("VerifC14Takeover", WF=1), H("VerifC16Will"), H("VerifC07Request", WF=1, VER=5), H("VerifC07Request", WF=1, VER=4), H("VerifC07Request", WF=1, VER=3), H("VerifC23MaxSize", PAYLOAD=40), H("VerifC23SubackV3"), H("VerifC23DisconnectV3")], "budget_s": 1800, "witnesses": 8, "perm_limit": 1, "bounds": "as quick, payload up to 40 bytes"},
+ "thorough": {"harnesses": [H("VerifC13Attach", WF=1), H("VerifC14Takeover", WF=1), H("VerifC16Will"), H("VerifC07Request", WF=1, VER=5), H("VerifC07Request", WF=1, VER=4), H("VerifC07Request", WF=1, VER=3), H("VerifC23MaxSize", PAYLOAD=40), H("VerifC23SubackV3"), H("VerifC23DisconnectV3"), H("VerifC09Redeliver", WF=1, MSGS=2, ACKS=2, RECON=2)], "budget_s": 1800, "witnesses": 8, "perm_limit": 1, "bounds": "as quick, payload up to 40 bytes"},
  "outside_bounds": ["interleaving of bytes from concurrent writers (WritePacket serialises under the client lock; true parallelism is not modelled)", "packets the encoded handlers cannot emit", "problem/response-information suppression (asserted by the codec check C26 through Mods)"],
  "stubs": SRV_STUBS + LIVE, "trusted_base": SRV_TB,
 }
